@@ -3,6 +3,10 @@
 import json, subprocess, sys
 
 CHECKS = {
+ "C20": dict(cat="exploration", tech="cross-process differential monitor (fresh sequential process vs cold concurrent processes vs reused-encoder histories) plus the Go race detector",
+   text="A fixed seeded list of 600/1600 encode and decode cases (messages at 5 versions, all 54 headerless payload types, attributes, objects; binary/XML/JSON/text; decode inputs from the harness's own writers so processes stay cold) is run sequentially in one fresh process, then in 6/120 fresh cold processes by 16..128 goroutines released together, each in its own seeded order (plans built under contention, distinct first-use orders recorded), and in 4/60 processes through reused cleared encoders and decoders fed concatenated items. Every result is compared with the fresh sequential process and with an in-process sequential pass; any race report with a library frame is a violation.",
+   note="Interleavings are sampled; what the race detector did not observe is not excluded.", ref="§2 C20"),
+
  "C14": dict(cat="exploration", tech="end-to-end equality monitor (crypto Equal / byte equality) over generated keys through every register format, version and encoding; panic monitor on every accessor over degraded objects",
    text="Part 1: ~52k (quick) / ~2.6M (thorough) transports of RSA keys built from fresh primes (pools searched for exponent encodings starting 0x00/>=0x80 or with leading zero bytes), ECDSA keys on 4 curves with crafted scalars (1, n-1, 2^k, leading zeros, high bit), symmetric keys and secrets of every length 0..64, through every builder format x versions 1.0..1.4 (transparent EC representation switch at 1.3 asserted) x TTLV/XML/JSON, extracted with every accessor and compared mathematically. Part 2: 19 object kinds with every subset (<=12 nodes) or random subsets of optional parts removed, wrapped keys and format mismatches; all ~30 accessors are called on whatever still decodes and must not panic.",
    note="Keys smaller than production size (256..1024-bit moduli) for speed; same code paths.", ref="§2 C14"),
